@@ -6,11 +6,13 @@ import (
 	"bytes"
 	"context"
 	"encoding/binary"
+	"errors"
 	"fmt"
 	"io"
 	"net/http"
 	"strings"
 	"testing"
+	"time"
 
 	"connectrpc.com/conformance/internal/compression"
 	conformancev1 "connectrpc.com/conformance/internal/gen/proto/go/connectrpc/conformance/v1"
@@ -63,7 +65,7 @@ func vfPayloadFor(size int, zero bool, mk func([]byte) proto.Message) []byte {
 // TestVerifC19ServerSharp: the reference server accepts exactly the limit and
 // rejects one byte more with resource_exhausted, on the uncompressed size.
 func TestVerifC19ServerSharp(t *testing.T) {
-	rep := verifkit.Begin("C19", "server-sharp", "real reference server (h2c) with MessageReceiveLimit L in {64, 4096, 204800, 1048576}; connect-go client (third-party, no limit) sends unary and client-stream messages (the latter after a small first message that does or does not configure an error response) of exactly L-1, L, L+1 serialized bytes x {Connect, gRPC, gRPC-Web} x 6 compressions x {all-zero, incompressible} padding; plus long client streams (16, 17, 40 messages of exactly L, many small ones; last message at L or L+1); oracle: <= L accepted and echoed, L+1 resource_exhausted, per message; distinct = (limit, protocol, compression, padding, delta, rpc)")
+	rep := verifkit.Begin("C19", "server-sharp", "real reference server (h2c) with MessageReceiveLimit L in {64, 4096, 204800, 1048576}; connect-go client (third-party, no limit) sends unary and client-stream messages (the latter after a small first message that does or does not configure an error response) of exactly L-1, L, L+1 serialized bytes x {Connect, gRPC, gRPC-Web} x 6 compressions x {all-zero, incompressible} padding; plus full-duplex bidi streams with the sized request at every position up to one past the configured responses, and long client streams (16, 17, 40 messages of exactly L, many small ones; last message at L or L+1); oracle: <= L accepted and echoed, L+1 resource_exhausted, per message; distinct = (limit, protocol, compression, padding, delta, rpc)")
 	defer rep.Write()
 	for _, L := range []int{64, 4096, 200 * 1024, 1 << 20} {
 		srv, err := vfStartServer(&conformancev1.ServerCompatRequest{Protocol: conformancev1.Protocol_PROTOCOL_CONNECT, HttpVersion: conformancev1.HTTPVersion_HTTP_VERSION_2, MessageReceiveLimit: uint32(L)}, true)
@@ -332,6 +334,95 @@ func TestVerifC19ServerSharp(t *testing.T) {
 				}
 			}
 		}
+		// full-duplex bidi streams: the limit holds at every position of the upload, including the one request the
+		// server still reads after it has sent its last response
+		if L <= 4096 || verifkit.Thorough() {
+			for _, po := range []struct {
+				name string
+				opt  connect.ClientOption
+			}{{"connect", nil}, {"grpc", connect.WithGRPC()}, {"grpc-web", connect.WithGRPCWeb()}} {
+				for _, R := range []int{1, 3} {
+					for pos := 1; pos <= R+1; pos++ {
+						for _, delta := range []int{0, 1} {
+							var opts []connect.ClientOption
+							if po.opt != nil {
+								opts = append(opts, po.opt)
+							}
+							cl := conformancev1connect.NewConformanceServiceClient(httpc, base, opts...)
+							name := fmt.Sprintf("Sharp/%d/full-duplex/%s/R%d/pos%d/%+d", L, po.name, R, pos, delta)
+							rep.Eval(1)
+							rep.DistinctKey(L, po.name, R, pos, delta, "full-duplex")
+							w := map[string]any{"limit": L, "protocol": po.name, "responses_configured": R, "sized_request_position": pos, "size": L + delta}
+							def := &conformancev1.StreamResponseDefinition{}
+							for k := 0; k < R; k++ {
+								def.ResponseData = append(def.ResponseData, []byte("r"))
+							}
+							mkAt := func(i int) func([]byte) proto.Message {
+								return func(b []byte) proto.Message {
+									m := &conformancev1.BidiStreamRequest{RequestData: b}
+									if i == 1 {
+										m.FullDuplex, m.ResponseDefinition = true, def
+									}
+									return m
+								}
+							}
+							sized := vfPayloadFor(L+delta, false, mkAt(pos))
+							if sized == nil {
+								rep.Count("unreachable_size", 1)
+								continue
+							}
+							ctx, cancel := context.WithTimeout(context.Background(), 60*time.Second)
+							stream := cl.BidiStream(ctx)
+							stream.RequestHeader().Set("X-Test-Case-Name", name)
+							var callErr error
+							got := 0
+							for i := 1; i <= R+1 && callErr == nil; i++ {
+								data := []byte("s")
+								if i == pos {
+									data = sized
+								}
+								if err := stream.Send(mkAt(i)(data).(*conformancev1.BidiStreamRequest)); err != nil {
+									break // the error itself comes from Receive
+								}
+								if i <= R {
+									if _, err := stream.Receive(); err != nil {
+										callErr = err
+									} else {
+										got++
+									}
+								}
+							}
+							_ = stream.CloseRequest()
+							for callErr == nil {
+								if _, err := stream.Receive(); err != nil {
+									if !errors.Is(err, io.EOF) {
+										callErr = err
+									}
+									break
+								}
+								got++
+							}
+							_ = stream.CloseResponse()
+							cancel()
+							verdict := "accepted"
+							if callErr != nil {
+								verdict = connect.CodeOf(callErr).String()
+								w["error"] = verifkit.Trunc(callErr.Error(), 200)
+							}
+							w["verdict"], w["responses_received"] = verdict, got
+							switch {
+							case delta > 0 && verdict != "resource_exhausted":
+								rep.Violation("sharp/server/full-duplex/over-limit-"+verdict, fmt.Sprintf("request #%d of a full-duplex stream (%d responses configured) has %d bytes (limit %d): %s, want resource_exhausted", pos, R, L+delta, L, verdict), w)
+							case delta == 0 && (verdict != "accepted" || got != R):
+								rep.Violation("sharp/server/full-duplex/within-limit-"+verdict, fmt.Sprintf("request #%d of a full-duplex stream has exactly %d bytes (the limit): %s with %d of %d responses, want accepted", pos, L, verdict, got, R), w)
+							default:
+								rep.Count(fmt.Sprintf("full_duplex_ok/delta%+d", delta), 1)
+							}
+						}
+					}
+				}
+			}
+		}
 		for _, l := range srv.stderr.Lines() {
 			rep.Count("server_stderr_lines", 1)
 			_ = l
@@ -342,6 +433,8 @@ func TestVerifC19ServerSharp(t *testing.T) {
 	rep.Sample(map[string]any{"limit": 4096, "protocol": "grpc", "compression": "zstd", "size": 4097, "expect": "resource_exhausted although the zero padding compresses to a few bytes"})
 	rep.RequireMin("buffered_multi_message_bodies_accepted", 12)
 	rep.RequireMin("long_streams_accepted", 12)
+	rep.RequireMin("full_duplex_ok/delta+1", 12)
+	rep.RequireMin("full_duplex_ok/delta+0", 12)
 	rep.RequireMin("over_limit_cases", 100)
 	rep.RequireMin("within_limit_accepted", 150)
 }
